@@ -21,6 +21,15 @@ IDENTS = ['input1', 'OUTPUTx', 'Input_a', '9x', 'a@b', 'vdd1', 'AND', 'buff', 'x
           'g[3]', 'nOt', 'INPUT0', 'o', 'Z', 'k9', 'in', 'out']
 
 
+def design(tier, seed):
+    from .. import tlc
+
+    r = tlc.run_model('RoundTripLemmas', 'RoundTripLemmas.cfg', workers=8, tag='C11-lemma', xmx='4g')
+    tlc.cleanup(r['workdir'])
+    return {'states': r['distinct'], 'transitions': r['generated'],
+            'runs': [f'RoundTripLemmas (Denote(FormatDoc(c)) = c and Decode(Encode(c)) ~ c over all netlists of U(2,2,15 types,2)): {r["distinct"]} states, {r["wall_s"]:.1f}s']}
+
+
 def sources(tier, seed, ctx):
     rng = random.Random(seed + 11)
     nets, st = gen.universe(2, 2, gen.ALL18, 3, tag='C11-U')
